@@ -29,6 +29,26 @@ type hostScn struct {
 	SameKey bool     `json:"same_key,omitempty"` // hostile client presents the victim's phone
 	// FailWrites: once the hostile client is gone, the server's writes to it may fail (an explorer choice)
 	FailWrites bool `json:"fail_writes,omitempty"`
+	// CmdToHostile: the platform sends a command to the hostile client's own key as soon as that client has been
+	// announced as joined; the client disconnects without waiting (the command races its teardown). Any result is
+	// fine, the call must return and the server must go on
+	CmdToHostile bool `json:"command_to_hostile_key,omitempty"`
+}
+
+// hostileJoined: the hostile client's connection has been announced as joined (or refused).
+type hostileJoined struct{ r *hostRun }
+
+//go:norace
+func (v hostileJoined) Ready() bool {
+	if v.r.hostile == nil {
+		return false
+	}
+	for _, e := range v.r.w.ev {
+		if e.Kind == "join" && e.Conn == v.r.hostile.C.Index {
+			return true
+		}
+	}
+	return false
 }
 
 const (
@@ -139,6 +159,19 @@ func hostMake(scn hostScn) func() (func(), any) {
 				}
 				cr.end(m, sn)
 			})
+			if scn.CmdToHostile {
+				ch := r.w.newCall("caller-h", ref.PhoneString(ref.BCD(hostilePhone, 6)), 0x8104)
+				vs.GoNamed("caller-h", false, func() {
+					vs.Block(&vs.Op{Kind: "hwait-hostile", W: hostileJoined{r}})
+					ch.begin()
+					m := r.w.srv.SendActiveMessage(service.NewActiveMessage(ch.Key, consts.P8104QueryTerminalParams, nil, 50*time.Millisecond))
+					var sn snap
+					if m != nil {
+						sn = takeSnap(m)
+					}
+					ch.end(m, sn)
+				})
+			}
 			// T: a new connection opened after H is done must be accepted and served
 			vs.GoNamed("third", false, func() {
 				hDone.Recv()
@@ -171,8 +204,16 @@ func hostCheck(res *vs.Result, user any) []vs.Violation {
 			victimOwns = true
 		}
 	}
+	for _, c := range r.w.calls {
+		if c.Name == "caller-h" && (!c.Done || c.Reply == nil) {
+			add("hostile-command-stranded", "a platform command for the hostile client's key, issued while that client was disconnecting, never returned")
+		}
+	}
 	if victimOwns && !r.victim.C.Closed() {
 		for _, c := range r.w.calls {
+			if c.Name != "caller" {
+				continue
+			}
 			if !c.Done || c.Reply == nil {
 				add("victim-command-stranded", "a platform command for the well-behaved terminal never returned")
 				continue
@@ -518,6 +559,12 @@ func c10Run(ctx *vc.Ctx, rep *vc.Report) {
 				}
 				runHost(hostScn{Name: "host:1:" + n, Pieces: []string{pieces[n]}, CloseAt: closeAt, Reset: reset}, bound1)
 			}
+		}
+	}
+	// a platform command for the hostile client's own key races its disconnect
+	for _, n := range []string{"valid-heartbeat", "0200/13/empty"} {
+		for _, reset := range []bool{false, true} {
+			runHost(hostScn{Name: "host:cmd:" + n, Pieces: []string{pieces[n]}, CloseAt: 1, Reset: reset, CmdToHostile: true}, 2)
 		}
 	}
 	// hostile client with the victim's key
